@@ -3784,8 +3784,12 @@ impl Interpreter {
             (JsValue::Undefined, JsValue::Null) | (JsValue::Null, JsValue::Undefined) => true,
 
             // 2. Number == String: convert string to number
-            (JsValue::Number(n), JsValue::String(s)) => *n == s.parse().unwrap_or(f64::NAN),
-            (JsValue::String(s), JsValue::Number(n)) => s.parse().unwrap_or(f64::NAN) == *n,
+            (JsValue::Number(n), JsValue::String(s)) => {
+                *n == crate::value::string_to_number(s.as_str())
+            }
+            (JsValue::String(s), JsValue::Number(n)) => {
+                crate::value::string_to_number(s.as_str()) == *n
+            }
 
             // 3. Boolean == anything: convert boolean to number and compare again
             (JsValue::Boolean(b), other) => {
@@ -3829,6 +3833,37 @@ impl Interpreter {
             // All other cases: not equal
             _ => false,
         }
+    }
+
+    /// The relational operators `<`, `<=`, `>`, `>=` (ECMAScript IsLessThan): operands are
+    /// converted to primitives (hint number), two strings compare by code units, anything
+    /// else numerically; a comparison involving NaN is false.
+    pub(crate) fn relational_compare(
+        &mut self,
+        left: &JsValue,
+        right: &JsValue,
+        op: bytecode_vm::RelOp,
+    ) -> Result<bool, JsError> {
+        use bytecode_vm::RelOp;
+        let l = self.coerce_to_primitive(left, "number")?;
+        let r = self.coerce_to_primitive(right, "number")?;
+        if let (JsValue::String(a), JsValue::String(b)) = (&l, &r) {
+            let ord = a.as_str().encode_utf16().cmp(b.as_str().encode_utf16());
+            return Ok(match op {
+                RelOp::Lt => ord.is_lt(),
+                RelOp::LtEq => ord.is_le(),
+                RelOp::Gt => ord.is_gt(),
+                RelOp::GtEq => ord.is_ge(),
+            });
+        }
+        let a = self.coerce_to_number(&l)?;
+        let b = self.coerce_to_number(&r)?;
+        Ok(match op {
+            RelOp::Lt => a < b,
+            RelOp::LtEq => a <= b,
+            RelOp::Gt => a > b,
+            RelOp::GtEq => a >= b,
+        })
     }
 
     /// ToPrimitive: Convert an object to a primitive value.
